@@ -496,6 +496,11 @@ def oracle_C03(results, metas, st):
         if base is None:
             continue
         for r, t in finals:
+            runs = find_items(r['cxx'], 'run')
+            # a segment other than the last one that was ended by the callback: the "interruption" lies after the stop of the
+            # uninterrupted run, where the property says nothing (continuing would add iterations the original run never made)
+            if any(run[1][1:] and run[1][-1][1] == 0 for run in runs[:-1]):
+                continue
             if t != base:
                 ops = [e[1] for e in r['case'][3] if e[0] == 'ops'][0]
                 what = 'reading the checkpoint back failed' if any(x[:2] == ['reload', 'stream_failed'] for x in r['cxx'] if isinstance(x, list)) else 'the final checkpoint text differs from the uninterrupted run'
